@@ -176,11 +176,16 @@ class PropertyDescriptor(Symbol):
          relation).
         :param inferred: Whether the relation is inferred or not.
         """
-        if domain_value and range_value:
-            for v in make_set(range_value):
-                PropertyDescriptorRelation(
-                    domain_value, v, self.wrapped_field, inferred=inferred
-                ).add_to_graph()
+        if domain_value is None or range_value is None:
+            return
+        # a symbol is one range value, whatever its truth value, hash or iteration protocol
+        range_values = (
+            [range_value] if isinstance(range_value, Symbol) else make_list(range_value)
+        )
+        for v in range_values:
+            PropertyDescriptorRelation(
+                domain_value, v, self.wrapped_field, inferred=inferred
+            ).add_to_graph()
 
     def __get__(self, obj, objtype=None):
         """
@@ -238,7 +243,7 @@ class PropertyDescriptor(Symbol):
                     self.domain, self.wrapped_field.name, type(value)
                 )
             monitored_value = monitored_type(descriptor=self)
-            for v in make_set(value):
+            for v in make_list(value):
                 monitored_value._add_item(v, inferred=False)
             value = monitored_value
         return value
